@@ -40,6 +40,8 @@ from glue.core.data_combo_helper import (ComponentIDComboHelper, DataCollectionC
 from glue.core.exceptions import IncompatibleDataException
 from glue.core.state import GlueSerializer, GlueUnSerializer
 from glue.core.state_objects import State
+from glue.core.hub import HubListener
+from glue.core import message as msg_mod
 
 ID = "C18"
 LEVEL = "exploration"
@@ -86,7 +88,7 @@ ANCHORS = ["glue.viewers.common.viewer:Viewer.add_data", "glue.viewers.common.vi
            "glue.core.state_objects:State.update_from_dict"]
 
 KINDS = ["histogram", "scatter", "image", "profile"]
-N_VIEWER = {"quick": 30, "thorough": 160}      # histories per viewer kind
+N_VIEWER = {"quick": 22, "thorough": 160}      # histories per viewer kind
 N_PICKER = {"quick": 32, "thorough": 400}      # blocks of picker histories
 N_STATES = {"quick": 4, "thorough": 16}
 
@@ -260,8 +262,17 @@ def check_data_picker(h, datasets, where):
 
 
 # ---------------------------------------------------------------- datasets
-def make_dataset(rng, label, nd, coords):
+X_DTYPES = ["float64", "float32", ">f8", "int16", "uint8", "int64"]
+
+
+def make_dataset(rng, label, nd, coords, ctx=None, single_row_ok=False):
     shape = tuple(rng.randint(2, 4) for _ in range(nd))
+    if nd == 1:
+        # tables: now and then a single row or enough rows (with duplicates) to leave numpy's small-array paths
+        # (a single row is only used in the picker histories: with one row whose value is 0 - e.g. its pixel coordinate -
+        # the histogram viewer asks fast_histogram for the range (0, 5e-323), which crashes the interpreter: a
+        # compute_histogram defect (C10's ground), lethal for a worker process)
+        shape = (rng.choice([1, 2, 3, 4, 4, 150] if ctx is None or single_row_ok else [2, 3, 4, 4, 150]),)
     n = int(np.prod(shape))
     kw = {}
     if coords == "identity":
@@ -273,8 +284,17 @@ def make_dataset(rng, label, nd, coords):
             m[i, nd] = rng.choice([0.0, 1.0])
         kw["coords"] = AffineCoordinates(m)
     d = Data(label=label, **kw)
-    d.add_component(np.arange(n, dtype=float).reshape(shape) + rng.randint(0, 3), "x")
-    d.add_component((np.arange(n, dtype=float).reshape(shape) % 5) ** 2, "y")
+    xdt = rng.choice(X_DTYPES)
+    x = (np.arange(n, dtype=float).reshape(shape) + rng.randint(0, 3)).astype(xdt)
+    if nd >= 2 and rng.random() < 0.4:
+        x = np.asfortranarray(x) if rng.random() < 0.5 else x[::-1, ...]      # non-contiguous storage
+    scale = rng.choice([1.0, 1.0, 1.0, 1e-10, 1e12])
+    if ctx is not None:
+        ctx.count("dataset_x_dtype:" + xdt)
+        ctx.count("dataset_rows:%s" % ("1" if n == 1 else ("150" if n >= 150 else "few")))
+        ctx.count("dataset_y_scale:%g" % scale)
+    d.add_component(x, "x")
+    d.add_component(((np.arange(n, dtype=float).reshape(shape) % 5) ** 2 + 1) * scale, "y")
     d.add_component(np.array([rng.randint(0, 9) for _ in range(n)]).reshape(shape), "k")
     if nd == 1 and rng.random() < 0.75:
         # categorical columns only in 1-d tables (a restored n-d categorical component cannot compute its codes -
@@ -302,25 +322,76 @@ POOLS = {
 
 
 # ---------------------------------------------------------------- viewer world
+class AutoAdd(HubListener):
+    """What applications do: when a dataset joins the collection, hand it to the viewer - from inside the hub delivery.
+    Also reacts to a new subset by changing its style (a re-entrant broadcast while the create message is delivered)."""
+
+    def __init__(self, world):
+        self.world = world
+        self.added = []
+        world.dc.hub.subscribe(self, msg_mod.DataCollectionAddMessage, handler=self.on_add)
+        world.dc.hub.subscribe(self, msg_mod.SubsetCreateMessage, handler=self.on_subset)
+
+    def on_add(self, message):
+        w = self.world
+        d = message.data
+        if (w.kind == "image" and d.ndim < 2) or not is_in(d, list(w.dc)):
+            return
+        try:
+            ok = w.viewer.add_data(d)
+        except Exception as e:
+            w.ctx.count("auto_add_raised:%s:%s" % (w.kind, type(e).__name__))
+            w.prev_raised = True
+            if not w.after_exception:
+                w.exception_in = "auto_add_data"
+            w.after_exception = True
+            ok = any(a.layer is d for a in w.viewer.layers)
+        if ok:
+            w.ctx.count("auto_add_during_delivery:" + w.kind)
+            if not is_in(d, w.given):
+                w.given.append(d)
+                w.lonely = [s for s in w.lonely if s.data is not d]
+            if not is_in(d, w.ever_given):
+                w.ever_given.append(d)
+
+    def on_subset(self, message):
+        try:
+            message.subset.style.alpha = 0.5 if message.subset.style.alpha != 0.5 else 0.6
+            self.world.ctx.count("subset_style_changed_during_create_delivery")
+        except Exception:
+            pass
+
+
 class VWorld:
     def __init__(self, ctx, kind):
         rng = ctx.rng
         self.ctx = ctx
         self.kind = kind
         spec = rng.choice(POOLS[kind])
-        self.pool = [make_dataset(rng, "d%d" % i, nd, co) for i, (nd, co) in enumerate(spec)]
+        self.pool = [make_dataset(rng, "d%d" % i, nd, co, ctx) for i, (nd, co) in enumerate(spec)]
         n0 = rng.randint(1, 3)
         self.dc = DataCollection(self.pool[:n0])
         self.app = HApp(self.dc)
         self.viewer = self.app.new_data_viewer(viewer_cls(kind))
+        self._auto_wanted = rng.random() < 0.3
         # harness model of what the viewer has been given
         self.given = []        # datasets
         self.lonely = []       # subsets added without their dataset (or left behind by removing the dataset's own layer)
         self.hidden = []       # subsets of given datasets whose layer was removed explicitly
         self.counter = 0
+        self.removed_labels = {}
+        self.links = []
+        self.prev_raised = False
+        self.pending_readd = None
+        self.pending_readd_now = None
+        self.auto = None
+        self.ever_given = []
         self.after_exception = False
         self.out_of_domain = False
         self.exception_in = None      # name of the operation that raised most recently (structural, goes into signatures)
+        if self._auto_wanted:
+            self.auto = AutoAdd(self)
+            ctx.count("viewer_histories_with_reentrant_auto_add_listener")
 
     def fresh(self, stem):
         self.counter += 1
@@ -488,8 +559,78 @@ def gen_viewer_op(world, rng):
              ("set_group_state", 4), ("add_component", 5), ("remove_component", 5), ("rename_component", 3),
              ("reorder_components", 2), ("add_subset", 3), ("remove_subset", 3), ("remove_layer", 3),
              ("state_layers_remove", 2), ("select", 10), ("flip_filter", 4), ("add_data_outside", 1),
-             ("update_values", 2), ("coords_change", 1)]
+             ("update_values", 2), ("coords_change", 1), ("clear_collection", 1), ("many_groups", 2), ("add_link", 2),
+             ("remove_link", 1), ("readd_after_emptied", 7), ("remove_all_data_layers", 2)]
     name = rng.choices([k for k, _ in table], [w for _, w in table])[0]
+    if world.pending_readd is not None:
+        # second half of do - remove - re-add: the dataset that was just taken away comes back
+        name, world.pending_readd_now = "readd_after_emptied", world.pending_readd
+        world.pending_readd = None
+    else:
+        world.pending_readd_now = None
+    if name == "readd_after_emptied":
+        # give the viewer, once it holds nothing, a dataset it held before
+        back = [d for d in world.ever_given if is_in(d, in_dc)]
+        if world.pending_readd_now is not None and is_in(world.pending_readd_now, back):
+            back = [world.pending_readd_now]
+        if len(v.layers) == 0 and back:
+            d = rng.choice(back)
+
+            def upd_back(ok, ret):
+                if ok and ret and not is_in(d, world.given):
+                    world.given.append(d)
+                    world.lonely = [s for s in world.lonely if s.data is not d]
+            return "add_data:again_after_viewer_was_emptied", (lambda: v.add_data(d)), upd_back
+        # otherwise work towards that situation: empty a viewer that holds a single dataset
+        if len(world.given) == 1 and not world.lonely and world.pending_readd_now is None:
+            d = world.given[0]
+            world.pending_readd = d
+
+            def upd_empty(ok, ret):
+                world.given, world.hidden = [], []
+            return "remove_data:emptying_the_viewer", (lambda: v.remove_data(d)), upd_empty
+        name = "remove_data" if world.given and rng.random() < 0.4 else "add_data"
+    if name == "remove_all_data_layers":
+        # leave only subset layers behind (or nothing): every data layer goes through the container
+        datas = [a.layer for a in v.layers if isinstance(a.layer, BaseData)]
+        if datas:
+            def call_all():
+                for x in datas:
+                    v.remove_layer(x)
+
+            def upd_all(ok, ret):
+                for x in datas:
+                    if is_in(x, world.given):
+                        world.given = [d for d in world.given if d is not x]
+                        for s in x.subsets:
+                            if not is_in(s, world.hidden) and not is_in(s, world.lonely) and any(a.layer is s for a in v.layers):
+                                world.lonely.append(s)
+                        world.hidden = [s for s in world.hidden if s.data is not x]
+            return "remove_layer:all_data_layers", call_all, upd_all
+        name = "remove_layer"
+    if name == "clear_collection" and len(in_dc) >= 1:
+        def upd_clear(ok, ret):
+            world.given, world.lonely, world.hidden = [], [], []
+        return "clear_collection", (lambda: dc.clear()), upd_clear
+    if name == "many_groups" and in_dc:
+        d = rng.choice(in_dc)
+        k = rng.randint(4, 7)
+
+        def call_many():
+            for _ in range(k):
+                dc.new_subset_group(subset_state=d.main_components[0] > rng.randint(0, 5), label=world.fresh("g"))
+        return "new_group:many", call_many, None
+    if name == "add_link" and len(in_dc) >= 2:
+        from glue.core.link_helpers import LinkSame
+        a, b = rng.sample(in_dc, 2)
+        if _has(a, "x") and _has(b, "x"):
+            link = LinkSame(a.id["x"], b.id["x"])
+            world.links.append(link)
+            return "add_link", (lambda: dc.add_link(link)), None
+        return "noop", (lambda: None), None
+    if name == "remove_link" and world.links:
+        link = world.links.pop(rng.randrange(len(world.links)))
+        return "remove_link", (lambda: dc.remove_link(link)), None
     if world.kind == "image" and name in ("select", "flip_filter") and rng.random() < 0.45:
         # the image viewer's special case: ask for the attribute that is currently shown on the other axis
         st = v.state
@@ -517,6 +658,10 @@ def gen_viewer_op(world, rng):
 
         def upd(ok, ret):
             if ok and ret:
+                if not is_in(d, world.ever_given):
+                    world.ever_given.append(d)
+                if len(d.derived_components) > 0:
+                    world.ctx.count("add_data_of_dataset_owning_derived_components")
                 if not is_in(d, world.given):
                     world.given.append(d)
                     world.lonely = [s for s in world.lonely if s.data is not d]
@@ -570,10 +715,46 @@ def gen_viewer_op(world, rng):
         return name, call, None
     if name == "add_component" and in_dc:
         d = rng.choice(in_dc)
-        kind = rng.choice(["num", "num", "cat", "derived"])
+        kind = rng.choice(["num", "num", "cat", "derived", "derived", "dtype", "dtype", "relabel_of_removed", "odd_label", "dask"])
         if kind == "cat" and d.ndim != 1:
             kind = "num"
         label = world.fresh("n")
+        if kind == "relabel_of_removed":
+            # do - remove - re-add: a new attribute under the label of one that was removed earlier
+            gone = [l for l in world.removed_labels.get(id(d), []) if not any(c.label == l for c in d.components)]
+            if gone:
+                label = rng.choice(gone)
+            kind = "num"
+            name = name + ":label_of_removed" if gone else name
+        if kind == "odd_label":
+            label = rng.choice(["", "x ", "X", "xx", " y", "k2", 0])
+            kind = "num"
+            if any(c.label == str(label) for c in d.components):
+                label = world.fresh("n")
+        if kind == "dask":
+            try:
+                import dask.array as da
+                from glue.core.component import DaskComponent
+                comp = DaskComponent(da.from_array(np.arange(d.size, dtype=float).reshape(d.shape), chunks=d.shape))
+                return "add_component:dask", (lambda: d.add_component(comp, label)), None
+            except ImportError:
+                kind = "num"
+        if kind == "dtype":
+            dt = rng.choice(["float32", ">f8", "uint8", "int8", "bool", "object_strings", "U5"])
+            if dt in ("object_strings", "U5") and d.ndim != 1:
+                dt = "float32"
+            if dt == "object_strings":
+                vals = np.array([rng.choice(["aa", "b"]) for _ in range(d.size)], dtype=object).reshape(d.shape)
+            elif dt == "U5":
+                vals = np.array([rng.choice(["p", "pq", "pqrst"]) for _ in range(d.size)], dtype="U5").reshape(d.shape)
+            elif dt == "bool":
+                vals = (np.arange(d.size).reshape(d.shape) % 2) == 0
+            else:
+                vals = (np.arange(d.size).reshape(d.shape) % 100).astype(dt)
+            if d.ndim >= 2 and rng.random() < 0.5:
+                vals = np.ascontiguousarray(vals.T).T        # same values, transposed storage
+            world.ctx.count("add_component_dtype:" + dt)
+            return "add_component:dtype", (lambda: d.add_component(vals, label)), None
         if kind == "num":
             vals = np.arange(d.size, dtype=float).reshape(d.shape) * 0.5
             return name + ":numeric", (lambda: d.add_component(vals, label)), None
@@ -595,6 +776,7 @@ def gen_viewer_op(world, rng):
         if is_in(c, nums) and len(nums) <= 2:
             return "noop", (lambda: None), None
         variant = "selected" if is_in(c, sel) else "unselected"
+        world.removed_labels.setdefault(id(d), []).append(c.label)
         return name + ":" + variant, (lambda: d.remove_component(c)), None
     if name == "rename_component" and in_dc:
         d = rng.choice(in_dc)
@@ -661,7 +843,13 @@ def gen_viewer_op(world, rng):
         return gen_select(world, rng)
     if name == "flip_filter" and world.kind in ("histogram", "scatter"):
         h = rng.choice([v.state.x_att_helper] + ([v.state.y_att_helper] if world.kind == "scatter" else []))
-        flag = rng.choice(["categorical", "pixel_coord", "world_coord", "derived", "datetime"])
+        flag = rng.choice(["categorical", "pixel_coord", "world_coord", "derived", "datetime", "numeric"])
+        if flag == "numeric" and getattr(h, "numeric"):
+            # switching the numeric attributes off is only generated while something else stays on offer
+            rest = [c for c in h.choices if not isinstance(c, ChoiceSeparator) and c is not None and
+                    component_class(c, unique_datasets([ls.layer for ls in v.state.layers])) in ("categorical", "datetime", "pixel", "world")]
+            if not rest:
+                flag = "derived"
         val = not getattr(h, flag)
 
         def call():
@@ -830,6 +1018,7 @@ def apply_op(ctx, world, rng, trace):
         ctx.count("op_rejected:%s:%s" % (world.kind, name))
     except Exception as e:
         ok = False
+        world.prev_raised = True
         if not world.after_exception:
             world.exception_in = name      # the first operation that raised since the last clean check
         world.after_exception = True
@@ -853,6 +1042,16 @@ def report_viewer(ctx, world, name, prev, trace, res, stage="live"):
     ref = getattr(v.state, "reference_data", None)
     ctx.evaluation([world.kind, name, prev, min(nd, 3), min(ns, 4), ref is not None and ref.coords is not None, stage], nd + ns > 0)
     ctx.count("quiescent_checks:" + world.kind)
+    if stage == "live":
+        if nd == 0 and ns > 0:
+            ctx.count("quiescent_checks_with_only_subset_layers:" + world.kind)
+        if ns >= 6:
+            ctx.count("quiescent_checks_with_6_or_more_subset_layers")
+        if name.startswith("add_data:again_after"):
+            ctx.count("readded_after_viewer_was_emptied:" + world.kind)
+        if world.prev_raised and not res:
+            ctx.count("clean_check_after_an_operation_that_raised")
+        world.prev_raised = False
     for kind, extra, detail in res:
         sig = {"kind": kind, "viewer": world.kind, "op": name.split(":")[0] if not name.startswith("block") else "delay_block",
                "stage": stage, "after_exception": world.after_exception}
@@ -923,6 +1122,7 @@ def save_restore(ctx, world, trace):
         w2 = VWorld.__new__(VWorld)
         w2.ctx, w2.kind, w2.viewer, w2.pool, w2.after_exception = ctx, kind, v2, world.pool, world.after_exception
         w2.exception_in = world.exception_in
+        w2.prev_raised = False
         w2.out_of_domain = False
         res = quiescent_check(w2, v2, expected_keys=saved_keys, stage="restored")
         n = report_viewer(ctx, w2, "save_restore", "-", trace, res, stage="restored")
@@ -982,11 +1182,15 @@ def run_picker_history(ctx, length):
     pool = []
     for i in range(4):
         nd = rng.choice([1, 1, 2])
-        pool.append(make_dataset(rng, "d%d" % i, nd, rng.choice(["none", "identity", "none", "affine"])))
+        pool.append(make_dataset(rng, "d%d" % i, nd, rng.choice(["none", "identity", "none", "affine"]), ctx, single_row_ok=True))
+    if rng.random() < 0.3:
+        # equal-looking but distinct datasets: same label, same attribute labels
+        pool[1].label = pool[0].label
+        ctx.count("picker_histories_with_twin_labelled_datasets")
     dc = DataCollection(pool[:rng.randint(1, 3)])
     s = PState()
     with_dc = rng.random() < 0.6
-    init_flags = {k: rng.random() < p for k, p in (("numeric", 0.85), ("categorical", 0.7), ("datetime", 0.7), ("pixel_coord", 0.4),
+    init_flags = {k: rng.random() < p for k, p in (("numeric", 0.7), ("categorical", 0.7), ("datetime", 0.7), ("pixel_coord", 0.4),
                                                    ("world_coord", 0.4), ("derived", 0.7), ("none", 0.25))}
     h = ComponentIDComboHelper(s, "att", data_collection=dc if with_dc else None, **init_flags)
     single = rng.choice(list(dc))
@@ -1012,9 +1216,10 @@ def run_picker_history(ctx, length):
         in_dc = list(dc)
         ops = ["append_h", "append_h", "remove_h", "flag", "flag", "addcomp", "rmcomp", "rmselected", "rmdata", "adddata",
                "select", "reorder", "rename", "delay_block", "set_multiple", "m_append", "m_remove", "m_set_multiple",
-               "select_data", "relabel_data", "update_id", "coords"]
+               "select_data", "relabel_data", "update_id", "coords", "all_flags", "ephemeral_dataset", "numeric_off",
+               "append_twice"]
         op = rng.choice(ops)
-        if single_with_dc and op in ("rmdata", "delay_block"):
+        if single_with_dc and op in ("rmdata", "delay_block", "ephemeral_dataset"):
             op = "addcomp"
         variant = ""
         try:
@@ -1039,6 +1244,32 @@ def run_picker_history(ctx, length):
                 flag = rng.choice(["numeric", "categorical", "datetime", "pixel_coord", "world_coord", "derived", "none"])
                 setattr(h, flag, rng.random() < 0.5)
                 variant = flag
+            elif op == "all_flags":
+                val = rng.random() < 0.4
+                variant = "on" if val else "off"
+                for flag in ("numeric", "categorical", "datetime", "pixel_coord", "world_coord", "derived"):
+                    setattr(h, flag, val)
+            elif op == "numeric_off":
+                h.numeric = False
+                h.derived = True       # derived attributes are numeric: they must go as well
+            elif op == "append_twice" and in_dc:
+                d = rng.choice(in_dc)
+                h.append_data(d)
+                h.append_data(d)
+                if not is_in(d, mine):
+                    mine.append(d)
+            elif op == "ephemeral_dataset":
+                # short-lived objects: a dataset that joins, is handed to the pickers, and leaves again at once
+                for _ in range(3):
+                    tmp = make_dataset(rng, fresh("tmp"), 1, "none")
+                    dc.append(tmp)
+                    h.append_data(tmp)
+                    mh.append_data(tmp)
+                    dc.remove(tmp)
+                    if not with_dc:
+                        h.remove_data(tmp)
+                    del tmp
+                gc.collect(0)
             elif op == "addcomp" and in_dc:
                 d = rng.choice(in_dc)
                 k = rng.choice(["num", "cat", "date", "derived"])
@@ -1245,20 +1476,20 @@ def run_state_roundtrips(ctx):
 # ---------------------------------------------------------------- cases
 def cases(tier, seed):
     nv, npk, ns = N_VIEWER[tier], N_PICKER[tier], N_STATES[tier]
-    # interleave so that every shard gets every kind
-    for i in range(max(nv, npk, ns)):
-        if i < nv:
-            for kind in KINDS:
-                yield ["viewer", kind, i]
-        if i < npk:
-            yield ["picker", i]
-        if i < ns:
-            yield ["states", i]
+    # the cheap cases first (seconds), so that a per-shard time cap only ever cuts viewer histories; then the viewer
+    # histories interleaved so that every shard gets every kind
+    for i in range(npk):
+        yield ["picker", i]
+    for i in range(ns):
+        yield ["states", i]
+    for i in range(nv):
+        for kind in KINDS:
+            yield ["viewer", kind, i]
 
 
 def run_case(ctx, case):
     if case[0] == "viewer":
-        run_viewer_history(ctx, case[1], ctx.rng.randint(10, 24))
+        run_viewer_history(ctx, case[1], ctx.rng.randint(9, 21))
     elif case[0] == "picker":
         for _ in range(12):
             run_picker_history(ctx, ctx.rng.randint(4, 16))
@@ -1284,4 +1515,16 @@ def floors(counters, tier):
         out.append("fewer than 9 State round trips")
     if counters.get("delay_blocks", 0) < 10:
         out.append("fewer than 10 delay blocks")
+    if sum(v for k, v in counters.items() if k.startswith("quiescent_checks_with_only_subset_layers:")) < 15:
+        out.append("fewer than 15 checks on a viewer holding only subset layers")
+    if sum(v for k, v in counters.items() if k.startswith("readded_after_viewer_was_emptied:")) < 4:
+        out.append("fewer than 4 re-additions of a dataset after the viewer had been emptied")
+    if counters.get("add_data_of_dataset_owning_derived_components", 0) < 20:
+        out.append("fewer than 20 add_data calls with a dataset that owns derived components")
+    if sum(v for k, v in counters.items() if k.startswith("auto_add_during_delivery:")) < 5:
+        out.append("fewer than 5 datasets handed to a viewer by a listener during hub delivery")
+    if counters.get("picker_op:numeric_off", 0) + counters.get("picker_op:all_flags", 0) < 40:
+        out.append("fewer than 40 picker steps switching the numeric filter off / all filters at once")
+    if counters.get("picker_op:ephemeral_dataset", 0) < 10:
+        out.append("fewer than 10 picker steps with short-lived datasets")
     return out
